@@ -57,6 +57,8 @@ func trueKeySpec(k crypto.Signer) signature.KeySpec {
 	return signature.KeySpec{}
 }
 
+var nSignSucceeds int
+
 func signSucceeds(mt string, s signature.Signer) (ok bool) {
 	defer func() {
 		if recover() != nil {
@@ -66,6 +68,12 @@ func signSucceeds(mt string, s signature.Signer) (ok bool) {
 	env, err := signature.NewEnvelope(mt)
 	if err != nil {
 		return false
+	}
+	nSignSucceeds++
+	if nSignSucceeds%2 == 0 {
+		// the object has a past: it was signed (and read) with the fixture signer before; that must not matter
+		env.Sign(goodReq(8))
+		env.Content()
 	}
 	req := goodReq(7)
 	req.Signer = s
